@@ -5,6 +5,7 @@
 set -u
 T=$(readlink -f "$1"); P=$(readlink -f "$2"); ID=$3; TIER=${4:-quick}
 git -C "$T/cpppo" checkout -q -- . || exit 2
+git -C "$T/cpppo" checkout -q --detach "$(git -C /repo rev-parse HEAD)" || exit 2
 git -C "$T/cpppo" apply "$P" || { echo "patch does not apply"; exit 2; }
 cd /verif && VERIF_ALT_TREE="$T" VERIF_OUT="$T/out" ./check "$ID" --tier "$TIER" 2>&1 | grep -v "^KNOWN-FINDING" | tail -4 | cut -c1-400
 RC=${PIPESTATUS[0]}
